@@ -159,7 +159,15 @@ func (r *schemaLoader) resolveRef(ref *Ref, target interface{}, basePath string)
 		// the pointer ends at a member the typed document does not hold (e.g. an absent additionalProperties)
 		return fmt.Errorf("%q designates nothing in the document: %w", ref.String(), ErrSpec)
 	}
-	return swag.DynamicJSONToStruct(res, target)
+	if err := swag.DynamicJSONToStruct(res, target); err != nil {
+		return err
+	}
+	if held := tgt.Elem(); held.Kind() == reflect.Ptr && held.IsNil() {
+		// what the typed document holds there encodes as JSON null (e.g. an "items" that is neither a schema nor a
+		// list of schemas): nothing has been decoded
+		return fmt.Errorf("%q designates nothing in the document: %w", ref.String(), ErrSpec)
+	}
+	return nil
 }
 
 // designatesNothing tells whether a JSON pointer evaluated on a typed document ended at a member that document
